@@ -52,7 +52,10 @@ namespace fastscapelib
 
             bool operator>(const pflood_node<FG, T>& other) const
             {
-                return m_elevation > other.m_elevation;
+                // break ties on the node index so that the result does not depend
+                // on the order in which the nodes were added to the queue
+                return m_elevation > other.m_elevation
+                       || (m_elevation == other.m_elevation && m_idx > other.m_idx);
             }
         };
 
